@@ -4,7 +4,8 @@
    among the data clusters 2..total+1; [fi_inv] says the cached count (when present) equals it and the
    next-free hint is >= 2. *)
 From Coq Require Import NArith List.
-From FatVerif Require Import Model.Base Model.Table Proofs.TableProofs.
+From FatVerif Require Import Model.Base Model.Table Model.Slot Model.DirSlots Proofs.TableProofs Proofs.DirSlotsProofs Proofs.FindFreeProofs.
+Import ListNotations.
 Open Scope N_scope.
 
 Section C05.
@@ -81,7 +82,40 @@ Example C05_example :
   end.
 Proof. vm_compute. repeat split. Qed.
 
+(* ---- "... or, in a fixed-size root directory, no sufficient run of free slots actually remains" (Model/DirSlots.v
+   find_free_entries = Dir::find_free_entries; [has_room ss num]: a run of [num] deleted slots before the end of the used
+   part, or deleted slots directly before the end marker plus everything from the marker to the end of the region) *)
+Theorem C05_root_nospace_only_without_room : forall k ss num, 1 <= num -> len_N ss < 134217728 ->
+  find_free_entries k ss num = Err ENotEnoughSpace -> is_fixed k = true /\ ~ has_room ss num.
+Proof. exact find_free_entries_nospace_no_room. Qed.
+
+Theorem C05_chain_directory_never_refused : forall cs ss num, 1 <= num -> len_N ss < 134217728 ->
+  find_free_entries (Chained cs) ss num <> Err ENotEnoughSpace.
+Proof. exact find_free_entries_chained_never_nospace. Qed.
+
+(* and the search is first fit: the first run of [num] deleted slots, else the deleted slots in front of the end marker *)
+Theorem C05_find_free_first_fit : forall k ss num p, 1 <= num -> len_N ss < 134217728 ->
+  find_free_entries k ss num = Ok p ->
+  exists pre mid post, ss = pre ++ mid ++ post /\ len_N pre = p /\ Forall nonend pre /\ Forall isdel mid /\ boundary pre /\
+    ((len_N mid = num /\ no_del_run (pre ++ removelast mid) num) \/
+     (len_N mid < num /\ endhead post /\ no_del_run (pre ++ mid) num /\ (is_fixed k = true -> p + num <= len_N ss))).
+Proof. exact find_free_entries_first_fit. Qed.
+
+(* non-vacuity: a 6-slot root "U d U d d ." (U used, d deleted, . end marker): 3 slots fit at index 3 (two deleted slots
+   plus the marker slot), 4 do not; the round-3 seeded change (capacity counted from the marker) would refuse 3 *)
+Example C05_root_room_example :
+  let u := 65 :: repeat_N 32 10 ++ [32] ++ repeat_N 0 20 in
+  let d := 229 :: repeat_N 32 10 ++ [32] ++ repeat_N 0 20 in
+  let z := repeat_N 0 32 in
+  let ss := [u; d; u; d; d; z] in
+  find_free_entries FixedRoot ss 3 = Ok 3 /\ find_free_entries FixedRoot ss 4 = Err ENotEnoughSpace /\
+  find_free_entries FixedRoot ss 1 = Ok 1 /\ find_free_entries (Chained 1) ss 4 = Ok 3.
+Proof. vm_compute. repeat split. Qed.
+
 Print Assumptions C05_stats_exact.
 Print Assumptions C05_alloc_accounting.
 Print Assumptions C05_remove_reclaims_all.
 Print Assumptions C05_truncate_reclaims.
+Print Assumptions C05_root_nospace_only_without_room.
+Print Assumptions C05_chain_directory_never_refused.
+Print Assumptions C05_find_free_first_fit.
